@@ -76,6 +76,10 @@ class ScriptedRandomState:
             raise HarnessError("random() called but no interval oracle installed")
         ws = [float(w) for w in self.oracle()]
         tot = sum(ws)
+        if not np.all(np.isfinite(ws)) or tot > 1 + 1e-6 or min(ws, default=0.0) < -1e-9:
+            # The reference branch weights are computed from the implementation's current state: weights that
+            # are not a sub-probability vector mean that state is not normalised (reported as a violation).
+            raise ValueError(f"branch weights {ws} are not a (sub-)probability vector: simulator state is not normalised")
         cum = np.concatenate([[0.0], np.cumsum(ws)])
         opts = [k for k in range(len(ws)) if ws[k] > EPS]
         weights = [ws[k] for k in opts]
